@@ -32,6 +32,21 @@ CHECKS = {
          'From 4 base states of the target wallet (funded; pending outgoing send; pending incoming; issued invoice) every sequence of <=2 (quick) / <=3 (thorough) requests from a 47-request alphabet (check_version; build_coinbase with 6 key-id classes; receive_tx with honest and 22 single-field-mutated slates, echoed own/already-received/invoice slates, unknown and other destination accounts, return address; finalize_tx with unrelated, echoed, forged, stripped and re-stated replies; the two exempted valid replies as controls) is executed on grin_wallet_api::Foreign, a third of them through the JSON-RPC handler. Oracle per call: exact diff of outputs, log entries, stored contexts and indices; only "one unconfirmed output + one receive entry" / "one coinbase candidate" may appear; replays are refused; spendable never decreases.',
          'Attacker slates are single-field mutations of honest slates from a second real wallet. States deduplicated by projection.',
          'DESIGN.md §3 C07'),
+ 'C08': ('model_checking',
+         'exhaustive t-wise structural enumeration of slates through every real encoder/decoder pair with a field-wise comparator',
+         'Slates are generated structurally over 12 dimensions (state, amount, fee, ttl, kernel feature+args, offset, num_participants, participant data / partial signatures, commitments, payment proof, version info, id) with real keys, signatures, commitments and range proofs: quick = exact 2-wise product (2,129 slates), thorough = 4-wise product plus the full product over presence classes (359,483 slates). Every slate goes through V4 JSON, V4 binary (two serializers), slatepack binary/JSON/armored and, for 105 representatives, every encrypted form (wallet API and packer, 3 recipient sets, with/without sender); decode(encode(x)) is compared field by field with x and all encodings with each other. 64 keys x 2 networks of slatepack/onion addresses and boundary sweeps of OutputData/TxLogEntry/Context records through ser and a real LMDB wallet round-trip too.',
+         'Byte-level canonical form is not asserted. Tx kernel and offset are compared against what the wallet derives from the slate-level fields. Binary-format normalisation of stray arguments (feat 0 with an argument, feat 2 without) is counted, not flagged.',
+         'DESIGN.md §3 C08'),
+ 'C13': ('model_checking',
+         'explicit-state breadth-first search over request-envelope sequences on the real owner API handler, cross-checked by complete undeduplicated trees',
+         'An 86-envelope alphabet (plaintext key exchange; plaintext calls; calls under the current, previous and never-negotiated key; body/nonce bit flips; wrong envelope method; batches; nested envelopes; malformed envelopes; key rotation inside the channel), each built for the current state, is posted in-process to the real OwnerAPIHandlerV3. BFS with dedup runs to a fixpoint (25 states) and the complete tree of depth 2 (quick, 7,396 paths) / depth 3 (thorough, 636,056 paths) is executed without dedup; the projected state sets must agree. Oracle per request: unauthenticated => JSON-RPC error without result, wallet directory byte-identical, shared key and open/closed state unchanged; authenticated => reply encrypted under the same key; a superseded key no longer authenticates.',
+         'Server ECDH keys are random: only the key generation is tracked. Authenticated requests in odd envelopes are recorded, not judged.',
+         'DESIGN.md §3 C13'),
+ 'C14': ('model_checking',
+         'exhaustive method x token x wallet-state matrix on the real Owner API with a raw-store diff, plus masked/unmasked differential history',
+         'Every call shape of every token-taking api::Owner method (36 shapes, 22 in the guarded class fixed in DESIGN.md) x 6 tokens (right, absent, random, right^bit0, right^bit255, another wallet\'s) x 5 wallet states (fresh, funded, pending send, pending receive, issued invoice) is executed against a wallet opened with a keychain mask; thorough adds every single-bit neighbour of the right token. Oracle: guarded + wrong token => InvalidKeychainMask and byte-identical store (raw LMDB dump + files); any method + wrong token => store unchanged; closed wallet refuses; a 25-step history gives equal projections on a masked and an unmasked wallet with the same seed.',
+         'Guarded class is taken from the API documentation (DESIGN.md table), not from the code. start_updater is only checked for an unchanged store.',
+         'DESIGN.md §3 C14'),
  'C17': ('model_checking',
          'exhaustive parameter sweep of the real protocol steps and refresh on real worlds',
          'Every combination of protocol step {receive_tx, process_invoice_tx, owner finalize_tx, foreign finalize_tx} x cutoff class {0, 1, h-1, h, h+1, u64::MAX} relative to the height the wallet has observed x staleness of that observation x other pending transactions, and every combination of ttl_blocks {none,1,2,3,50} x blocks mined 0..4 x side {sender, recipient} x other pending transactions for refresh, is executed; oracle: refused iff cutoff != 0 and observed height >= cutoff, refusals change nothing, unexpired slates complete, refresh cancels exactly the expired pending transactions and releases their inputs.',
